@@ -23,7 +23,8 @@ MIN_NONTRIVIAL = {"quick": 800, "thorough": 8000}
 REQUIRED_FEATURES = ["name:weight", "name:KR", "name:VC", "name:VC_SQRT", "name:custom", "divisive:None", "divisive:True",
                      "divisive:False", "window:rectangular", "window:diagonal-square", "window:empty", "form:dense",
                      "form:sparse", "form:pixels", "form:pixels-join", "missing-column", "cli:dump-b", "mode:square",
-                     "mode:symm", "stored-by-balance_cooler", "cli:dump-b:fill-lower", "cli:dump-b:region"]
+                     "mode:symm", "stored-by-balance_cooler", "cli:dump-b:fill-lower", "cli:dump-b:region",
+                     "history:column-rewritten-after-read"]
 
 NAMES = ["weight", "KR", "VC", "VC_SQRT", "myw", "ICE_2"]
 
@@ -163,6 +164,7 @@ def one_cooler(ctx, cid, rng, n, nsample):
             for div in (None, True, False):
                 combos.append((nm, div))
         nw = 0
+        ok = True
         for wi_, w in enumerate(windows):
             nm, div = combos[wi_ % len(combos)]
             bal = True if nm == "weight" and wi_ % 2 == 0 else nm
@@ -180,6 +182,35 @@ def one_cooler(ctx, cid, rng, n, nsample):
                 c.nontrivial(cid, nm, div, w)
             if not ok:
                 break
+        # history: the columns are rewritten (in place / deleted and re-created / by balance_cooler again) after they
+        # have been read: later queries - same object and a new one - use the column as stored NOW
+        if ok and windows:
+            fp, _, gp = path.partition("::")
+            for nm in list(W):
+                new = gen_weights(rng, n)
+                with h5py.File(fp, "r+") as f:
+                    g = f[gp or "/"]["bins"]
+                    if nm == "balw":
+                        continue
+                    if rng.random() < 0.5:
+                        g[nm][:] = new
+                    else:
+                        attrs = dict(g[nm].attrs)
+                        del g[nm]
+                        g.create_dataset(nm, data=new)
+                        g[nm].attrs.update(attrs)
+                W[nm] = new
+            if "balw" in W:
+                cooler.balance_cooler(clr, store=True, store_name="balw", ignore_diags=0, min_nnz=0, mad_max=0,
+                                      max_iters=3)
+                with h5py.File(fp, "r") as f:
+                    W["balw"] = f[gp or "/"]["bins/balw"][:]
+            c.feature("history:column-rewritten-after-read")
+            for obj in (clr, cooler.Cooler(path)):
+                for k_ in rng.permutation(len(windows))[:6]:
+                    nm, div = combos[int(rng.integers(len(combos)))]
+                    ok = ok and check_window(c, obj, D, rows, W, nm, nm, div, windows[int(k_)], symm)
+                    nw += 1
         c.feature("form:dense", "form:sparse", "form:pixels", "form:pixels-join")
         # missing weight column is an error, not an unbalanced result
         for bad in ("nonexistent", "KR" if "KR" not in W else "zzz"):
